@@ -154,6 +154,18 @@ fn run_case(line: &str) -> String {
             let payload_ok = v.len() >= 48 && v[48..] == [q.as_slice(), b.as_slice()].concat()[..];
             format!(" bld={}:{}:{}", hex(&v[..v.len().min(48)]), payload_ok as u8, hx(code.map(|_| header.ec as u64).unwrap_or(0)))
         };
+        // the error-message constructors: an error text as long as the case's body (their 48 header
+        // bytes must be the encoding of the model's build for that text; payload = [query ++] text)
+        let bld = {
+            let text = "e".repeat(b.len());
+            let code = repe::ErrorCode::try_from(header.ec).unwrap_or(repe::ErrorCode::InternalError);
+            let v = repe::message::create_error_message(code, &text).to_vec();
+            let ok1 = v.len() >= 48 && &v[48..] == text.as_bytes();
+            let req = Message::builder().id(header.id).query_bytes(q.clone()).build();
+            let w = repe::message::create_error_response_like(&req, code, &text).to_vec();
+            let ok2 = w.len() >= 48 && w[48..] == [q.as_slice(), text.as_bytes()].concat()[..];
+            format!("{bld} cem={}:{}:{}:{}:{}", hex(&v[..v.len().min(48)]), ok1 as u8, hex(&w[..w.len().min(48)]), ok2 as u8, hx(code as u32 as u64))
+        };
         let m = match Message::new(header, q.clone(), b.clone()) { Ok(m) => m, Err(e) => return format!("new=err:{}{bld}", err_kind(&e)) };
         let mut o = String::new();
         o.push_str(&format!("new={}", msg_s(&m)));
